@@ -27,7 +27,8 @@ TABLE = [
 SELECTION = [("flp", None, 3, 4), ("mcp", None, 2, 3), ("dpp", None, 4, 9), ("mdpp", None, 4, 9)]
 SMTWTP = [("smtwtp", None, 3, 4)]
 MDCPDP = [("mdcpdp", "d1", 4, 6), ("mdcpdp", "d2", 4, 4), ("mdcpdp", "d3", 4, 4)]  # 1 / 2 / 3 depots (documented constraints only; reward not claimed)
-EXTRA = {"C01": MDCPDP, "C02": SELECTION + SMTWTP + MDCPDP, "C03": SELECTION[:2] + SMTWTP}
+MDCPDP_R = [("mdcpdp", "d1", 2, 4), ("mdcpdp", "d2", 2, 4)]  # reward_mode="minsum": total length driven
+EXTRA = {"C01": MDCPDP, "C02": SELECTION + SMTWTP + MDCPDP, "C03": SELECTION[:2] + SMTWTP + MDCPDP_R}
 NO_GENERATOR = {"dpp", "mdpp"}  # constructors need downloaded data: no generator rollouts (witness runs are still replayed)
 
 
